@@ -1179,6 +1179,31 @@ func wrapAny(val Node, targetType *Type) Node {
 		mapLit.T = targetType
 		return mapLit
 	}
+	// Constant expressions (only literals inside) are converted like literals.
+	switch v := val.(type) {
+	case *GroupExpression:
+		v.Expr = wrapAny(v.Expr, targetType)
+		return v
+	case *BinaryExpression: // array concatenation and repetition
+		v.Left = wrapAny(v.Left, targetType)
+		if v.Op != OP_ASTERISK { // the right operand of a repetition is its count
+			v.Right = wrapAny(v.Right, targetType)
+		}
+		v.T = targetType
+		return v
+	case *SliceExpression:
+		v.Left = wrapAny(v.Left, targetType)
+		v.T = targetType
+		return v
+	case *IndexExpression:
+		v.Left = wrapAny(v.Left, &Type{Name: v.Left.Type().Name, Sub: targetType})
+		v.T = targetType
+		return v
+	case *DotExpression:
+		v.Left = wrapAny(v.Left, &Type{Name: MAP, Sub: targetType})
+		v.T = targetType
+		return v
+	}
 	panic(fmt.Sprintf("internal error: %s incompatible types: target %v, value %v", val.Token().Location(), targetType, valType))
 }
 
